@@ -64,7 +64,8 @@ def _():
 
 @witness("C18", "vtt-rt-outside-ruby")
 def _():
-    return _run("vtt", VTT + b"<rt>x\n", 0, "AttributeError", "_handle_starttag")
+    # fixed by repository commit 15db449 (<rt> outside <ruby> is handled like any other tag)
+    return _clean("vtt", VTT + b"<rt>x\n") or _clean("vtt", VTT + b"a<rt>x</rt>b<ruby>c<rt>d</rt></ruby>\n")
 
 @witness("C18", "vtt-stray-end-tag")
 def _():
@@ -81,7 +82,8 @@ def _():
 
 @witness("C18", "srt-stray-end-tag")
 def _():
-    return _run("srt", SRT + b"a</b>c\n", 0, "TypeError|AttributeError", "_TextParser")
+    # fixed by repository commit 818e997 (an end tag that does not match the innermost open tag is ignored)
+    return _clean("srt", SRT + b"a</b>c\n") or _clean("srt", SRT + b"</b></b></b></b>c<i>d</b>e</i></i>f\n")
 
 @witness("C18", "srt-font-color-without-value")
 def _():
@@ -93,15 +95,20 @@ def _():
 
 @witness("C18", "imsc-seq-after-indefinite-child")
 def _():
-    return _run("imsc", TT % (b"", b'<body><div timeContainer="seq"><p>a</p><p>b</p></div></body>'), 0, "TypeError", r"ParsingContext\.process")
+    # fixed by repository commit 476722b (the child never begins: it is skipped)
+    return (_clean("imsc", TT % (b"", b'<body><div timeContainer="seq"><p>a</p><p>b</p></div></body>'))
+            or _clean("imsc", TT % (b"", b'<body><div><p timeContainer="seq"><span>a</span><br/><span>b</span></p></div></body>')))
 
 @witness("C18", "imsc-tt-extent-one-token")
 def _():
-    return _run("imsc", TT % (b'tts:extent="1920px"', b"<body/>"), 0, "IndexError", "ExtentAttribute")
+    # fixed by repository commit 68af3ae (logged and ignored)
+    return _clean("imsc", TT % (b'tts:extent="1920px"', b"<body/>")) or _clean("imsc", TT % (b'tts:extent=""', b"<body/>"))
 
 @witness("C18", "imsc-tt-extent-overflow")
 def _():
-    return _run("imsc", TT % (b'tts:extent="' + b"9" * 400 + b'px 1px"', b"<body/>"), 0, "OverflowError", "ExtentAttribute")
+    # fixed by repository commit 68af3ae (logged and ignored)
+    return (_clean("imsc", TT % (b'tts:extent="' + b"9" * 400 + b'px 1px"', b"<body/>"))
+            or _clean("imsc", TT % (b'tts:extent="1e400px 1px"', b"<body/>")))
 
 @witness("C18", "imsc-content-inside-set")
 def _():
@@ -109,8 +116,11 @@ def _():
 
 @witness("C18", "imsc-zero-rate")
 def _():
-    return (_run("imsc", TT % (b'ttp:frameRateMultiplier="1 0"', b"<body/>"), 0, "ZeroDivisionError", "FrameRateAttribute")
-            or _run("imsc", TT % (b'ttp:tickRate="0"', b'<body><div><p begin="10t">x</p></div></body>'), 0, "ZeroDivisionError", "parse_time_expression"))
+    # fixed by repository commit 98e50ce (logged and ignored)
+    return (_clean("imsc", TT % (b'ttp:frameRateMultiplier="1 0"', b"<body/>"))
+            or _clean("imsc", TT % (b'ttp:tickRate="0"', b'<body><div><p begin="10t">x</p></div></body>'))
+            or _clean("imsc", TT % (b'ttp:frameRate="0"', b'<body><div><p begin="10f">x</p></div></body>'))
+            or _clean("imsc", TT % (b'ttp:frameRateMultiplier="0 1"', b'<body><div><p begin="10f">x</p></div></body>')))
 
 @witness("C18", "isd-style-on-br")
 def _():
@@ -137,11 +147,14 @@ def _():
 
 @witness("C18", "stl-zero-block-count")
 def _():
-    return _run("stl", _stl(dict(TNB=b"00000"), [(0, 5)]), 0, "ZeroDivisionError", r"^stl/reader\.py:to_model$")
+    # fixed by repository commit c08d0ef
+    return _clean("stl", _stl(dict(TNB=b"00000"), [(0, 5)]), 0) or _clean("stl", _stl(dict(TNB=b"   -1"), [(0, 5), (0, 7)]), 0)
 
 @witness("C18", "stl-cumulative-block-first")
 def _():
-    return _run("stl", _stl({}, [(2, 5)]), 0, "AttributeError", r"^stl/datafile\.py:DataFile\.process_tti_block<-")
+    # fixed by repository commit 8f4f9e5 (a subtitle is started)
+    return (_clean("stl", _stl({}, [(2, 5)]), 0) or _clean("stl", _stl({}, [(3, 5)]), 0) or _clean("stl", _stl({}, [(77, 5)]), 0)
+            or _clean("stl", _stl({}, [(2, 5), (3, 6), (0, 8)]), 3))
 
 @witness("C18", "scc-no-caption-to-process")
 def _():
@@ -162,11 +175,14 @@ def _():
 
 @witness("C18", "imsc-writer-aspect-ratio-overflow")
 def _():
-    return _run("imsc", TT % (b'xmlns:ittp="http://www.w3.org/ns/ttml/profile/imsc1#parameter" ittp:aspectRatio="' + b"9" * 400 + b' 3"', b"<body/>"), 0, "OverflowError", "DisplayAspectRatioAttribute")
+    # fixed by repository commit e3fb15a (integers are written as integers)
+    return _clean("imsc", TT % (b'xmlns:ittp="http://www.w3.org/ns/ttml/profile/imsc1#parameter" ittp:aspectRatio="' + b"9" * 400 + b' 3"', b"<body/>"))
 
 @witness("C18", "imsc-writer-special-values")
 def _():
-    return _run("imsc", TT % (b"", b'<body><div><p><span tts:textEmphasis="none">a</span></p></div></body>'), 0, "AttributeError", r"imsc/style_properties\.py")
+    # fixed by repository commit e809638
+    return _clean("imsc", TT % (b"", b'<body><div><p><span tts:textEmphasis="none">a</span><span tts:rubyReserve="none">b</span>'
+                                     b'<span tts:textShadow="none">c</span></p></div></body>'))
 
 @witness("C18", "lcd-bg-color-without-body")
 def _():
@@ -175,5 +191,6 @@ def _():
 
 @witness("C18", "lcd-position")
 def _():
-    return _run("imsc", TT % (b"", b'<head><layout><region xml:id="r" tts:position="center"/></layout></head><body region="r"><div><p>a</p></div></body>'),
-                0, "AttributeError|AssertionError", r"Position\.compute<-filters/doc/lcd")
+    # fixed by repository commit f645786 (the extent is computed first)
+    return (_clean("imsc", TT % (b"", b'<head><layout><region xml:id="r" tts:position="center"/></layout></head><body region="r"><div><p>a</p></div></body>'))
+            or _clean("imsc", TT % (b"", b'<head><layout><region xml:id="r" tts:position="center" tts:extent="50% 50%"/></layout></head><body region="r"><div><p>a</p></div></body>')))
